@@ -138,6 +138,6 @@ def run(out, tier, seed):
     for i in range(400 if quick else 6000):
         ac = rng.random() < 0.4
         m, f = rng.choice(combos)
-        jobs.append({"cfg": {"autocommit": ac, "dirty_reads": (not ac) and rng.random() < 0.4, "method": m, "format": f, "vocab": rng.choice(vocabs)}, "events": random_history(rng, rng.randint(6, 30))})
+        jobs.append({"cfg": {"autocommit": ac, "dirty_reads": (not ac) and rng.random() < 0.4, "method": m, "format": f, "vocab": rng.choice(vocabs), "params": rng.random() < 0.4}, "events": random_history(rng, rng.randint(6, 30))})
     out.extra["jobs"] = len(jobs)
     out.conform(__name__, TRACE, jobs, nontrivial=nontrivial, chunk=300, par=16, heap="2g")
